@@ -1,3 +1,4 @@
+import Mieru.Gen.FactsC20
 import Mieru.Model.Url
 import Mieru.Model.Config
 import Mieru.Proofs.Url
@@ -290,6 +291,23 @@ theorem profile_link_requires_credentials (isIP tpOK : (List UInt8) → Bool) (u
   by_cases h6 : u.hostname = []
   · rw [if_pos h6] at h; cases h
   exact ⟨by simpa using h1, by simpa using h2, by simpa using h3, h4, h5, h6⟩
+
+/-! ## Regenerated structure of `mergeServerConfig` (round 3) -/
+
+/-- REGENERATED from pkg/appctl/server.go and the generated protobuf code: every optional field of
+    `ServerConfig` is chosen by `if src.F != nil { v = src.GetF() } else { v = dst.GetF() }` — guard,
+    patch getter and previous-value getter all name the SAME field — and written back to `dst.F` from
+    that very variable; together with `Users` (merged by name) the written fields are exactly the
+    message's fields, each once. (seeded/C20-1 — `dns` chosen when the patch sets `egress` — makes the
+    first component false; a new proto field the merge forgets makes the last one false.) -/
+theorem merge_server_covers_every_field :
+    (Mieru.Gen.FactsC20.mergeServerChoices.all fun c => c.1 == c.2.2.1 && c.1 == c.2.2.2) = true ∧
+    (((Mieru.Gen.FactsC20.mergeServerChoices.map fun c => (c.1, c.2.1)) ++ [("Users", "mergedUsers")]).all
+      fun w => Mieru.Gen.FactsC20.mergeServerWrites.contains w) = true ∧
+    Mieru.Gen.FactsC20.mergeServerWrites.length = Mieru.Gen.FactsC20.mergeServerChoices.length + 1 ∧
+    Mieru.Gen.FactsC20.mergeServerWrites.map (·.1) = Mieru.Gen.FactsC20.serverConfigFields ∧
+    Mieru.Gen.FactsC20.serverConfigFields =
+      ["PortBindings", "Users", "AdvancedSettings", "LoggingLevel", "Mtu", "Egress", "Dns", "TrafficPattern"] := by decide
 
 end Mieru.C20
 
